@@ -143,6 +143,12 @@ func (qe *queryEvent) handleQueryRequest(m *nats.Msg) {
 	s := qe.r.s
 	s.tracef("Q=> %s: %s", qe.r.rname, m.Data)
 
+	// Assert there is a reply subject
+	if m.Reply == "" {
+		s.errorf("Missing reply subject on query request: %s", qe.r.rname)
+		return
+	}
+
 	qr := &queryRequest{
 		resource: qe.r,
 		msg:      m,
